@@ -989,6 +989,7 @@ pub(crate) fn c05_flatten_x(nsteps: usize, ninner: usize, threads_form: bool, cu
   e::note(format!("{:?}{} inners [{}]", op, if threads_form { " (threads)" } else { "" }, specs.iter().map(|s| match s { InnerSpec::Hot => "hot".to_string(), InnerSpec::Cold(s) => format!("cold[{}]", s.show()) }).collect::<Vec<_>>().join(", ")));
   let probe = fresh_probe();
   let mut unsub: Option<Box<dyn FnOnce()>> = None;
+  let mut closed_q: Option<Box<dyn Fn() -> bool>> = None;
   // build and subscribe
   if !threads_form {
     let inners: Vec<Obs> = specs.iter().enumerate().map(|(k, s)| inner_obs(k, s)).collect();
@@ -997,27 +998,27 @@ pub(crate) fn c05_flatten_x(nsteps: usize, ninner: usize, threads_form: bool, cu
         let src = cat::hot_tagged(0);
         let f = move |v: Val| inners[v.sym().konst().unwrap() as usize].clone();
         if op == FlatOp::FlatMap {
-          { let u = src.flat_map(f).actual_subscribe(probe); unsub = Some(Box::new(move || u.unsubscribe())); }
+          { let u = src.flat_map(f).actual_subscribe(probe); let u2 = u.clone(); closed_q = Some(Box::new(move || u2.is_closed())); unsub = Some(Box::new(move || u.unsubscribe())); }
         } else {
-          { let u = src.concat_map(f).actual_subscribe(probe); unsub = Some(Box::new(move || u.unsubscribe())); }
+          { let u = src.concat_map(f).actual_subscribe(probe); let u2 = u.clone(); closed_q = Some(Box::new(move || u2.is_closed())); unsub = Some(Box::new(move || u.unsubscribe())); }
         }
       }
       _ => {
         let src: rxrust::ops::box_it::BoxOp<'static, Obs, Val> = observable::create(|s: OuterHandle| OUTER.with(|o| *o.borrow_mut() = Some(s))).box_it();
         match op {
           FlatOp::MergeAll(n) => {
-            { let u = src.merge_all(n).actual_subscribe(probe); unsub = Some(Box::new(move || u.unsubscribe())); }
+            { let u = src.merge_all(n).actual_subscribe(probe); let u2 = u.clone(); closed_q = Some(Box::new(move || u2.is_closed())); unsub = Some(Box::new(move || u.unsubscribe())); }
           }
           FlatOp::ConcatAll => {
-            { let u = src.concat_all().actual_subscribe(probe); unsub = Some(Box::new(move || u.unsubscribe())); }
+            { let u = src.concat_all().actual_subscribe(probe); let u2 = u.clone(); closed_q = Some(Box::new(move || u2.is_closed())); unsub = Some(Box::new(move || u.unsubscribe())); }
           }
           _ => {
-            { let u = src.flatten().actual_subscribe(probe); unsub = Some(Box::new(move || u.unsubscribe())); }
+            { let u = src.flatten().actual_subscribe(probe); let u2 = u.clone(); closed_q = Some(Box::new(move || u2.is_closed())); unsub = Some(Box::new(move || u.unsubscribe())); }
           }
         }
       }
     }
-    drive_c05(op, &specs, nsteps, limit, probe, false, |k| inner_obs(k, &specs[k]), |_k| unreachable!(), if cut { unsub.take() } else { None });
+    drive_c05(op, &specs, nsteps, limit, probe, false, |k| inner_obs(k, &specs[k]), |_k| unreachable!(), if cut { unsub.take() } else { None }, closed_q.take());
   } else {
     let inners: Vec<ObsT> = specs.iter().enumerate().map(|(k, s)| inner_obs_t(k, s)).collect();
     match op {
@@ -1025,32 +1026,32 @@ pub(crate) fn c05_flatten_x(nsteps: usize, ninner: usize, threads_form: bool, cu
         let src = cat::hot_tagged_t(0);
         let f = move |v: Val| inners[v.sym().konst().unwrap() as usize].clone();
         if op == FlatOp::FlatMap {
-          { let u = src.flat_map_threads(f).actual_subscribe(probe); unsub = Some(Box::new(move || u.unsubscribe())); }
+          { let u = src.flat_map_threads(f).actual_subscribe(probe); let u2 = u.clone(); closed_q = Some(Box::new(move || u2.is_closed())); unsub = Some(Box::new(move || u.unsubscribe())); }
         } else {
-          { let u = src.concat_map_threads(f).actual_subscribe(probe); unsub = Some(Box::new(move || u.unsubscribe())); }
+          { let u = src.concat_map_threads(f).actual_subscribe(probe); let u2 = u.clone(); closed_q = Some(Box::new(move || u2.is_closed())); unsub = Some(Box::new(move || u.unsubscribe())); }
         }
       }
       _ => {
         let src: rxrust::ops::box_it::BoxOpThreads<ObsT, Val> = observable::create(|s: OuterHandleT| OUTER_T.with(|o| *o.borrow_mut() = Some(s))).box_it();
         match op {
           FlatOp::MergeAll(n) => {
-            { let u = src.merge_all_threads(n).actual_subscribe(probe); unsub = Some(Box::new(move || u.unsubscribe())); }
+            { let u = src.merge_all_threads(n).actual_subscribe(probe); let u2 = u.clone(); closed_q = Some(Box::new(move || u2.is_closed())); unsub = Some(Box::new(move || u.unsubscribe())); }
           }
           FlatOp::ConcatAll => {
-            { let u = src.concat_all_threads().actual_subscribe(probe); unsub = Some(Box::new(move || u.unsubscribe())); }
+            { let u = src.concat_all_threads().actual_subscribe(probe); let u2 = u.clone(); closed_q = Some(Box::new(move || u2.is_closed())); unsub = Some(Box::new(move || u.unsubscribe())); }
           }
           _ => {
-            { let u = src.flatten_threads().actual_subscribe(probe); unsub = Some(Box::new(move || u.unsubscribe())); }
+            { let u = src.flatten_threads().actual_subscribe(probe); let u2 = u.clone(); closed_q = Some(Box::new(move || u2.is_closed())); unsub = Some(Box::new(move || u.unsubscribe())); }
           }
         }
       }
     }
-    drive_c05(op, &specs, nsteps, limit, probe, true, |_k| unreachable!(), |k| inner_obs_t(k, &specs[k]), if cut { unsub.take() } else { None });
+    drive_c05(op, &specs, nsteps, limit, probe, true, |_k| unreachable!(), |k| inner_obs_t(k, &specs[k]), if cut { unsub.take() } else { None }, closed_q.take());
   }
 }
 
 /// Drives outer and inner events and mirrors them in the queue model.
-fn drive_c05(op: FlatOp, specs: &[InnerSpec], nsteps: usize, limit: usize, probe: Probe, threads_form: bool, mk: impl Fn(usize) -> Obs, mk_t: impl Fn(usize) -> ObsT, mut cut: Option<Box<dyn FnOnce()>>) {
+fn drive_c05(op: FlatOp, specs: &[InnerSpec], nsteps: usize, limit: usize, probe: Probe, threads_form: bool, mk: impl Fn(usize) -> Obs, mk_t: impl Fn(usize) -> ObsT, mut cut: Option<Box<dyn FnOnce()>>, closed_q: Option<Box<dyn Fn() -> bool>>) {
   let cutting = cut.is_some();
   let cut_step = if cutting { e::choose(nsteps as u32) as usize } else { usize::MAX };
   let via_map = matches!(op, FlatOp::FlatMap | FlatOp::ConcatMap);
@@ -1087,6 +1088,18 @@ fn drive_c05(op: FlatOp, specs: &[InnerSpec], nsteps: usize, limit: usize, probe
         e::note("unsubscribe()".to_string());
         u();
         probe.forbid("delivery-after-unsubscribe/flatten");
+        if let Some(q) = &closed_q {
+          if !q() {
+            e::fail("flatten/handle-open-after-unsubscribe", || "a remaining handle of the composite reports open after unsubscribe()".to_string());
+          }
+        }
+      }
+    }
+    if cutting {
+      if let Some(q) = &closed_q {
+        if q() {
+          probe.forbid("delivery-after-is_closed/flatten");
+        }
       }
     }
     // choices: 0 outer emits next inner, 1 outer completes, 2 outer errors, 3.. event on a subscribed hot inner
@@ -1268,8 +1281,8 @@ pub fn harnesses() -> Vec<HarnessDef> {
     format!("{} steps over the outer (emit next inner / complete / error) and every subscribed hot inner (item / complete / error); {} inners, each hot or cold-synchronous (<=2 symbolic items, complete or error); merge_all(1..=k+1), concat_all, flatten, flat_map, concat_map", if t { 7 } else { 6 }, 3)
   }
   add("c05_flatten", vec!["C05", "C01"], "flattening operators vs the queue model; live inner subscriptions counted against the limit; a RefCell double borrow is a caught panic", b5, Box::new(|t| c05_flatten(if t { 7 } else { 6 }, 3, false)), 3_000_000, 40_000_000, true);
-  add("c02_flatten", vec!["C02"], "flattening operators: unsubscribe() at every step; afterwards no inner (running, queued-then-started, hot or periodic) may deliver", b5, Box::new(|t| c05_flatten_x(if t { 7 } else { 5 }, 3, false, true)), 3_000_000, 40_000_000, true);
-  add("c02_flatten_threads", vec!["C02"], "same for the _threads forms", b5, Box::new(|t| c05_flatten_x(if t { 7 } else { 5 }, 3, true, true)), 3_000_000, 40_000_000, true);
+  add("c02_flatten", vec!["C02", "C17"], "flattening operators: unsubscribe() at every step; afterwards no inner (running, queued-then-started, hot or periodic) may deliver", b5, Box::new(|t| c05_flatten_x(if t { 7 } else { 5 }, 3, false, true)), 3_000_000, 40_000_000, true);
+  add("c02_flatten_threads", vec!["C02", "C17"], "same for the _threads forms", b5, Box::new(|t| c05_flatten_x(if t { 7 } else { 5 }, 3, true, true)), 3_000_000, 40_000_000, true);
   add("c05_flatten_threads", vec!["C05"], "the _threads forms; re-acquisition of a held MutArc lock = would block forever", b5, Box::new(|t| c05_flatten(if t { 7 } else { 6 }, 3, true)), 3_000_000, 40_000_000, true);
   v
 }
